@@ -25,6 +25,14 @@ pub struct History {
     /// the documented return value, set the last error and leave the element untouched
     #[serde(default)]
     pub invalid_utf8_probe: bool,
+    /// failing calls made inside handlers do NOT fetch the last error: a later failure (handler Stop, memory limit)
+    /// must still be explained by its own message ("returns the *last* error")
+    #[serde(default)]
+    pub errors_left_pending: bool,
+    /// every element handler passes a streaming handler whose write_all_callback is NULL: the call must fail and the
+    /// drop callback must still run exactly once
+    #[serde(default)]
+    pub null_streaming_probe: bool,
 }
 
 struct Shared {
@@ -42,6 +50,10 @@ struct Shared {
     stream_drops: isize,
     stream_created: isize,
     invalid_utf8_probe: bool,
+    errors_left_pending: bool,
+    null_streaming_probe: bool,
+    /// a handler returned LOL_HTML_STOP
+    stop_returned: bool,
     /// problems found by the invalid-UTF-8 probe
     pub probe_problems: Vec<String>,
     pub probe_calls: usize,
@@ -85,9 +97,22 @@ unsafe fn take_str(sh: &mut Shared, s: Str) -> Option<String> {
     r
 }
 
+/// fetches the last error after a failed call made inside a handler - unless this history leaves such errors pending
+unsafe fn fetch_err(sh: &mut Shared) -> Option<String> {
+    if sh.errors_left_pending {
+        return None;
+    }
+    take_str(sh, lolhtml::errors::lol_html_take_last_error())
+}
+
 fn tick(sh: &mut Shared) -> bool {
     sh.invocations += 1;
-    sh.fail_at == Some(sh.invocations)
+    let fail = sh.fail_at == Some(sh.invocations);
+    if fail {
+        // every caller answers a failing tick with LOL_HTML_STOP
+        sh.stop_returned = true;
+    }
+    fail
 }
 
 fn ops_for(sh: &Shared, hid: usize, sub: Sub, off: usize, always: &[Op]) -> Vec<Op> {
@@ -285,8 +310,8 @@ unsafe extern "C" fn element_cb(el: *mut Element, ud: *mut c_void) -> RewriterDi
             if !failed {
                 sh.probe_problems.push(format!("{what} accepted invalid UTF-8"));
             }
-            let e = take_str(sh, lolhtml::errors::lol_html_take_last_error());
-            if failed && e.is_none() {
+            let e = fetch_err(sh);
+            if failed && e.is_none() && !sh.errors_left_pending {
                 sh.probe_problems.push(format!("{what} failed without setting the last error"));
             }
         };
@@ -308,12 +333,26 @@ unsafe extern "C" fn element_cb(el: *mut Element, ud: *mut c_void) -> RewriterDi
         let r = lol_html_element_remove_attribute(el, bp, bad.len()) != 0;
         expect_err(sh, "lol_html_element_remove_attribute", r);
     }
+    if sh.null_streaming_probe {
+        let mut hh = streamer(h.sh, String::new(), false);
+        hh.write_all_callback = None;
+        let rc = lol_html_element_streaming_append(el, &mut hh);
+        std::mem::forget(hh);
+        if rc == 0 {
+            sh.probe_problems.push("lol_html_element_streaming_append accepted a streaming handler without write_all_callback".into());
+        } else {
+            // (-1 without a last-error message: the header only promises "an error will be reported" for this misuse,
+            // so nothing more is demanded than the return code and - through the drop balance - exactly one drop_callback)
+            let _ = fetch_err(sh);
+        }
+        sh.probe_calls += 1;
+    }
     let mut op_errors = vec![];
     if h.end_tag {
         let ctx = Box::into_raw(Box::new(EndCtx { sh: h.sh, hid: h.hid, ops: vec![], el_start: start }));
         sh.end_ctxs.push(ctx);
         if lol_html_element_add_end_tag_handler(el, end_tag_cb, ctx as *mut c_void) != 0 {
-            let _ = take_str(sh, lolhtml::errors::lol_html_take_last_error());
+            let _ = fetch_err(sh);
         }
     }
     for op in &ops {
@@ -354,7 +393,7 @@ unsafe extern "C" fn element_cb(el: *mut Element, ud: *mut c_void) -> RewriterDi
             Op::RemoveKeep => lol_html_element_remove_and_keep_content(el),
             Op::SetAttr(n, v) => {
                 if lol_html_element_set_attribute(el, n.as_ptr() as *const c_char, n.len(), v.as_ptr() as *const c_char, v.len()) != 0 {
-                    let e = take_str(sh, lolhtml::errors::lol_html_take_last_error()).unwrap_or_default();
+                    let e = fetch_err(sh).unwrap_or_default();
                     op_errors.push(format!("SetAttr:{e}"));
                 }
             }
@@ -363,7 +402,7 @@ unsafe extern "C" fn element_cb(el: *mut Element, ud: *mut c_void) -> RewriterDi
             }
             Op::SetTagName(n) => {
                 if lol_html_element_tag_name_set(el, n.as_ptr() as *const c_char, n.len()) != 0 {
-                    let e = take_str(sh, lolhtml::errors::lol_html_take_last_error()).unwrap_or_default();
+                    let e = fetch_err(sh).unwrap_or_default();
                     op_errors.push(format!("SetTagName:{e}"));
                 }
             }
@@ -371,7 +410,7 @@ unsafe extern "C" fn element_cb(el: *mut Element, ud: *mut c_void) -> RewriterDi
                 let ctx = Box::into_raw(Box::new(EndCtx { sh: h.sh, hid: h.hid, ops: inner.clone(), el_start: start }));
                 sh.end_ctxs.push(ctx);
                 if lol_html_element_add_end_tag_handler(el, end_tag_cb, ctx as *mut c_void) != 0 {
-                    let _ = take_str(sh, lolhtml::errors::lol_html_take_last_error());
+                    let _ = fetch_err(sh);
                     op_errors.push("OnEndTag:no-content".into());
                 }
             }
@@ -466,7 +505,7 @@ unsafe extern "C" fn comment_cb(c: *mut Comment, ud: *mut c_void) -> RewriterDir
         }
         if let Op::SetText(s) = op {
             if lol_html_comment_text_set(c, s.as_ptr() as *const c_char, s.len()) != 0 {
-                let _ = take_str(sh, lolhtml::errors::lol_html_take_last_error());
+                let _ = fetch_err(sh);
             }
         }
     }
@@ -573,6 +612,9 @@ pub fn run(cfg: &Config, input: &[u8], cuts: &[usize], hist: History) -> Result<
             stream_drops: 0,
             stream_created: 0,
             invalid_utf8_probe: hist.invalid_utf8_probe,
+            errors_left_pending: hist.errors_left_pending,
+            null_streaming_probe: hist.null_streaming_probe,
+            stop_returned: false,
             probe_problems: vec![],
             probe_calls: 0,
         }));
@@ -679,7 +721,12 @@ pub fn run(cfg: &Config, input: &[u8], cuts: &[usize], hist: History) -> Result<
                 Res::Ok
             } else {
                 match take_str(&mut *sh, lolhtml::errors::lol_html_take_last_error()) {
-                    Some(m) => Res::Err(classify(&m)),
+                    Some(m) => {
+                        if (*sh).stop_returned && m != "The rewriter has been stopped." {
+                            (*sh).probe_problems.push(format!("a handler returned LOL_HTML_STOP but the last error of the failed call is {m:?} (an older, never fetched message?)"));
+                        }
+                        Res::Err(classify(&m))
+                    }
                     None => Res::Err(ErrKind::Handler("NO LAST ERROR".into())),
                 }
             };
@@ -698,7 +745,12 @@ pub fn run(cfg: &Config, input: &[u8], cuts: &[usize], hist: History) -> Result<
                 Res::Ok
             } else {
                 match take_str(&mut *sh, lolhtml::errors::lol_html_take_last_error()) {
-                    Some(m) => Res::Err(classify(&m)),
+                    Some(m) => {
+                        if (*sh).stop_returned && m != "The rewriter has been stopped." {
+                            (*sh).probe_problems.push(format!("a handler returned LOL_HTML_STOP but the last error of the failed call is {m:?} (an older, never fetched message?)"));
+                        }
+                        Res::Err(classify(&m))
+                    }
                     None => Res::Err(ErrKind::Handler("NO LAST ERROR".into())),
                 }
             };
@@ -707,6 +759,8 @@ pub fn run(cfg: &Config, input: &[u8], cuts: &[usize], hist: History) -> Result<
         }
         // a stale last error must not exist after successful calls
         let stale = take_str(&mut *sh, lolhtml::errors::lol_html_take_last_error());
+        // (histories that deliberately leave handler-level errors pending may legitimately end with one)
+        let stale = if hist.errors_left_pending { None } else { stale };
         if hist.selectors_freed_before_rewriter {
             // selectors are borrowed by the builder only; the header allows freeing them once the rewriter is built
             if builder_alive {
